@@ -658,7 +658,7 @@ class C14:
                    "import errors are compared by class (ImportError), not by message"]
 
     def configs(self, tier):
-        return ["checked", "release"]
+        return ["checked", "release", "checked+hooks"]     # (the hooks build runs the fixed host-side sessions under the use-after-reclaim monitor)
 
     def plan(self, tier):
         return 20000 if tier == "quick" else 1200000
@@ -673,6 +673,10 @@ class C14:
             return {"host_printer": True}         # ... and one in which the host installs its printer again mid-session
         if idx == 2:
             return {"host_peek": True}            # ... and one in which the host looks module globals up before any import
+        if idx == 3:
+            return {"host_loader": True}          # ... one in which the host installs its module loader again mid-session
+        if idx == 4:
+            return {"fiber_import": True}         # ... and one in which a module's first import is made by a fiber that never finishes it
         cseed = derive(seed, "C14", idx)
         ir = gen_ir(cseed)
         rng = Rng(derive(cseed, "tape"))
@@ -748,6 +752,68 @@ fn say(x) { return print(x); }
                 return res
         return res
 
+    def fixed_session(self, sc, ctx, label, progs, fs, judge):
+        """Runs one fixed session in the plain builds and under the use-after-reclaim monitor with a collection at every allocation;
+        judge(histories per program) -> None or a message."""
+        stats = Stats()
+        stats.inc(label + "_cases")
+        res = {"stats": stats, "nontrivial": False, "key": label, "scenario": dict(sc)}
+        for config, cfg in (("checked", {}), ("release", {}), ("checked+hooks", {"gc": {"mode": "always", "quarantine": True}})):
+            run_sc = {"programs": progs, "fs": {k_: {"source": v_, "reads": []} for k_, v_ in fs.items()}, "tape": [], "faults": {}, "config": cfg}
+            h = ctx.run(config, run_sc)
+            stats.inc("executions")
+            po = process_outcome(h)
+            gc = h.get("gc") or {}
+            if po:
+                res["violation"] = {"class": po[0], "msg": "[%s] %s: %s" % (config, label, po[1])}
+                return res
+            if gc.get("uar_count", 0) > 0:
+                res["violation"] = {"class": "use-after-reclaim", "msg": "[%s] %s: %d use(s) of reclaimed objects; first: %s" % (
+                    config, label, gc["uar_count"], json.dumps(gc.get("uar", [])[:3]))}
+                return res
+            msg = judge([p_["events"] for p_ in h["programs"]], [p_["outcome"] for p_ in h["programs"]])
+            if msg:
+                res["violation"] = {"class": label, "msg": "[%s] %s" % (config, msg)}
+                return res
+        return res
+
+    def check_host_loader(self, sc, ctx):
+        """The host installs its module loader again (the same one) between two snippets: modules loaded so far stay loaded - one
+        object per path, its top-level code run once, its globals shared by everyone who imported it, before or after."""
+        fs = {"cm": 'print(("ev", "load-cm"));\nimport "cm2";\nvar count = 0;\nfn bump() { count = count + 1; cm2.total = cm2.total + 10; return count; }\n',
+              "cm2": 'print(("ev", "load-cm2"));\nvar total = 0;\n'}
+        progs = [{"kind": "snippet", "source": 'import "cm";\ncm.bump(); cm.bump();\nvar keep = cm; var fb = cm.bump;\nprint(("ev", "a", cm.count));\n'},
+                 {"kind": "setloader"},
+                 {"kind": "snippet", "source": 'var junk = []; for i in 0..40 { junk.push([i]); }\nprint(("ev", "fb", fb()));\nimport "cm"; import "cm2";\ncm.bump();\n'
+                                               'print(("ev", "b", cm.count, cm == keep, keep.count, cm2.total));\n'}]
+        want = [[[s("load-cm")], [s("load-cm2")], [s("a"), num(2)]], [], [[s("fb"), num(3)], [s("b"), num(4), b(True), num(4), num(40)]]]
+
+        def judge(evs, outs):
+            if evs != want:
+                return "modules after the host installed its loader again: expected %s, got %s" % (json.dumps(want), json.dumps(evs)[:400])
+        return self.fixed_session(sc, ctx, "host_loader", progs, fs, judge)
+
+    def check_fiber_import(self, sc, ctx):
+        """A module's first import is made inside a fiber; the module's top-level code yields, and the fiber is dropped and collected.
+        A later import of that module either reports an ImportError (the module never finished loading) or loads it - and nothing
+        reads the fiber that is gone."""
+        fs = {"ym": 'print(("ev", "load-ym"));\nFiber.yield(7);\nvar done = 1;\n'}
+        src = ('var f = Fiber.new(|| { import "ym"; return 1; });\nprint(("ev", "first", f.call()));\nf = nil;\n'
+               'var junk = []; for i in 0..60 { junk.push([i, "s${i}"]); }\n'
+               'fn again() { try { import "ym"; return ym.done; } catch e { return type(e); } }\n'
+               'print(("ev", "again", again()));\nprint(("ev", "again", again()));\n')
+        progs = [{"kind": "snippet", "source": src}, {"kind": "snippet", "source": 'var r = "none"; try { import "ym"; r = "bound"; } catch e { r = type(e); }\nprint(("ev", "later", r));\n'}]
+
+        def judge(evs, outs):
+            head = [[s("load-ym")], [s("first"), num(7)]]
+            refused = [[s("again"), cls("ImportError")], [s("again"), cls("ImportError")]]
+            loaded = [[s("load-ym")], [s("again"), num(1)], [s("again"), num(1)]]
+            if evs[0] not in (head + refused, head + loaded) or not outs[0].get("ok"):
+                return "import of a module whose first import a dropped fiber never finished: %s (%s)" % (json.dumps(evs[0])[:400], json.dumps(outs[0])[:120])
+            if evs[1] not in ([[s("later"), cls("ImportError")]], [[s("later"), s("bound")]], [[s("load-ym")], [s("later"), s("bound")]]):
+                return "import in the next snippet: %s" % json.dumps(evs[1])[:300]
+        return self.fixed_session(sc, ctx, "fiber_import", progs, fs, judge)
+
     def check_host_printer(self, sc, ctx):
         """A module has a global of its own called `print`; the host installs its printer again between two snippets."""
         stats = Stats()
@@ -779,6 +845,10 @@ fn say(x) { return print(x); }
             return self.check_host_printer(sc, ctx)
         if sc.get("host_peek"):
             return self.check_host_peek(sc, ctx)
+        if sc.get("host_loader"):
+            return self.check_host_loader(sc, ctx)
+        if sc.get("fiber_import"):
+            return self.check_fiber_import(sc, ctx)
         stats = Stats()
         ir = sc["ir"]
         try:
@@ -831,7 +901,7 @@ fn say(x) { return print(x); }
 
     def shrink(self, sc):
         import copy
-        if sc.get("default_loader") or sc.get("host_printer") or sc.get("host_peek"):
+        if sc.get("default_loader") or sc.get("host_printer") or sc.get("host_peek") or sc.get("host_loader") or sc.get("fiber_import"):
             return
         ir = sc["ir"]
         for site in sorted(sc["faults"]):
